@@ -67,8 +67,13 @@ KF_INT = "KF-generic-int-range"
 KF_FLOORDIV = "KF-floordiv-bound"
 KF_BITWISE = "KF-bitwise-int-range"
 KF_SHAPE = "KF-generic-unary-shape"
+KF_ASTYPE = "KF-astype-bool-substring"
+KF_MOD_UNIT = "KF-mod-unit-divisor"
+PENDING = (KF_ASTYPE, KF_MOD_UNIT)      # reported to the integrator; dedicated streams become active once listed open
 DIVISOR_OPS = ("floordiv", "mod", "truediv", "safediv")
 KF_WHAT = {
+    KF_ASTYPE: "astype: `dtype in (\"bool\")` is a substring test; 'b' (int8) and 'l' (int64) are typed Bint[2]",
+    KF_MOD_UNIT: "Bint[n] % Bint[1] declares Bint[0]; numpy integer modulo by zero returns 0 (RuntimeWarning only)",
     KF_INT: "generic same-dtype rules keep Bint[n] although values leave [0,n) or are not integers",
     KF_FLOORDIV: "Bint[n]//Bint[m] declared Bint[(n-1)//(m-1)+1], too small unless the divisor is maximal",
     KF_BITWISE: "and_/or_/xor on Bint[n>2] operands declared Bint[2]",
@@ -533,6 +538,10 @@ class Run:
         bints = [d for d in doms if d.dtype != "real"]
         if name in SHAPE_CHANGING:
             return KF_SHAPE
+        if name == "astype" and op.defaults.get("dtype") in ("b", "l", "bo", "o", "oo", "ol", "boo", "ool", ""):
+            return KF_ASTYPE
+        if rule == "_find_domain_mod" and len(bints) == 2 and doms[1].dtype == 1:
+            return KF_MOD_UNIT
         if rule == U_GENERIC and bints and name not in INT_SOUND_UNARY:
             return KF_INT
         if rule == B_GENERIC and len(bints) == 2:
@@ -626,10 +635,14 @@ class Run:
                 res = apply_op(op, arrs, finitary)
                 if res[0] == "raise":
                     ctx.count("reality:op-raises")
+                    if stream.startswith("class-"):
+                        ctx.count(f"class:{stream}:array-op-raises:{res[1]}")
                     continue
                 ctx.count("reality:value")
                 defect = value_defect(impl[1], res[1])
-                if defect == "range" and op.name in DIVISOR_OPS and not np.all(arrs[1]):
+                if stream.startswith("class-"):
+                    ctx.count(f"class:{stream}:array-op-returns")
+                if defect == "range" and op.name in DIVISOR_OPS and not np.all(arrs[1]) and region != KF_MOD_UNIT:
                     ctx.count("reality:zero-divisor-skipped")     # outside the op's domain
                     continue
                 if region == KF_SHAPE or (region and defect == "range"):
@@ -719,6 +732,8 @@ class Run:
                         E = Binary(op, ts[0], ts[1])
                 except Exception as e:
                     ctx.count("term:eager-declines:" + type(e).__name__)
+                    if stream.startswith("class-"):
+                        ctx.count(f"class:{stream}:eager-raises:{type(e).__name__}")
                     continue
                 try:
                     E2 = L(**{v.name: t for v, t in zip(vs, ts)})
@@ -734,6 +749,8 @@ class Run:
                         self.term_fail(label + "-output", desc, op, doms, finitary, ts, L, R, region)
                     continue
                 ctx.count(f"term:{label}-value")
+                if stream.startswith("class-"):
+                    ctx.count(f"class:{stream}:{label}-returns")
                 bad = None
                 if dom_key(R.output) != dom_key(L.output):
                     bad = "output"
@@ -749,7 +766,8 @@ class Run:
                     if isinstance(R, Tensor) and list(R.inputs) == list(union):
                         ctx.count("term:inputs-equal-union-in-order")
                     continue
-                if bad == "value-range" and op.name in DIVISOR_OPS and not np.all(np.asarray(ts[1].data)):
+                if bad == "value-range" and op.name in DIVISOR_OPS and not np.all(np.asarray(ts[1].data)) \
+                        and region != KF_MOD_UNIT:
                     ctx.count("term:zero-divisor-skipped")
                     continue
                 if region == KF_SHAPE or (region and bad == "value-range") or (tregion and bad == "output"):
@@ -791,6 +809,13 @@ BINARY_BATCHES = [((), ()), ((("i", 2),), (("i", 2),)), ((("i", 2),), (("j", 3),
                   ((("i", 2), ("j", 3)), (("j", 3), ("i", 2)))]
 
 
+def np_index_reality(shape, index):
+    try:
+        return tuple(np.zeros(shape)[index].shape)
+    except Exception:
+        return None
+
+
 def np_reduce_reality(shape, axis, keep):
     try:
         return tuple(np.sum(np.zeros(shape), axis=axis, keepdims=keep).shape)
@@ -804,7 +829,11 @@ def streams(run, tier, full_box=False):
     quick = tier == "quick"
     sizes = (1, 2, 3) if quick else (1, 2, 3, 4)
     shapes = all_shapes(3, sizes)
-    small_shapes = all_shapes(3, (1, 2, 3)) if not quick else shapes
+    # zero-size dimensions (empty arrays)
+    zero_shapes = [(0,), (0, 2), (2, 0), (1, 0), (0, 0)] if quick else \
+        [s for s in all_shapes(2, (0, 1, 2)) if 0 in s] + [(2, 0, 3), (0, 1, 2), (2, 3, 0)]
+    shapes = shapes + zero_shapes
+    small_shapes = (all_shapes(3, (1, 2, 3)) + zero_shapes) if not quick else shapes
     bint_sizes = (1, 2, 3, 4) if quick else (1, 2, 3, 4, 5)
     term_p = 0.08 if quick else 0.5
 
@@ -823,7 +852,7 @@ def streams(run, tier, full_box=False):
         for ax in range(-len(sh), len(sh)):
             run.add("unary", mkop("flip", axis=ax), [dom_of("real", sh)])
             run.add("unary", mkop("flip", axis=ax), [dom_of(3, sh)], variants=("max", "rand"))
-        for dt in ("float", "float32", "double", "bool", "int", "int64", "uint8", "complex64"):
+        for dt in ("float", "float32", "double", "bool", "int", "int64", "uint8", "complex64", "b", "l", "bo", ""):
             op = mkop("astype", dtype=dt)
             run.add("astype", op, [dom_of("real", sh)], term=want_term(UNARY_BATCHES))
             for n in bint_sizes:
@@ -898,6 +927,7 @@ def streams(run, tier, full_box=False):
             except ValueError:
                 real = None
             run.add_spec(f"C06 np slicelen {sx(enc_part(sl)[1:])[1:-1]} {n}", real, "slicelen")
+            run.add_spec(f"C06 np index {sx(enc_pval('index', sl))} {sx([n])}", np_index_reality((n,), sl), "index")
             run.add("getslice", mkop("getslice", index=sl), [dom_of("real", (n,))],
                     term=want_term(UNARY_BATCHES) if rng.random() < 0.2 else None)
     parts_pool = [None, Ellipsis, 0, 1, -1, 2, -3]
@@ -922,6 +952,8 @@ def streams(run, tier, full_box=False):
                 except Exception:
                     continue
                 count += 1
+                run.add_spec(f"C06 np index {sx(enc_pval('index', index))} {sx(list(sh))}",
+                             np_index_reality(sh, index), "index")
                 run.add("getslice", op, [dom_of("real", sh)], term=want_term(UNARY_BATCHES))
                 if rng.random() < 0.15:
                     run.add("getslice", op, [dom_of(3, sh)], variants=("max",), term=want_term(UNARY_BATCHES))
@@ -1034,6 +1066,25 @@ def streams(run, tier, full_box=False):
                     term=want_term([tuple(() for _ in operands), tuple((("i", 2),) for _ in operands)], 0.4))
     run.flush()
 
+    # ---- classification streams: declared types that can only be reached through an exception (declines) -----------
+    for a, b in (((2, 3), (3,)), ((2, 3), (1, 3)), ((3,), ()), ((1,), (2,)), ((2, 1), (2, 3))):
+        for dim in (0, -1):
+            run.add("class-stack-unequal-parts", mkop("stack", dim=dim), [dom_of("real", a), dom_of("real", b)],
+                    finitary=True, term=[((), ()), ((("i", 2),), ())])
+    for a, b, axis in (((1, 3), (2, 3), -1), ((1, 3), (2, 3), 1), ((1, 2, 3), (4, 1, 3), -1), ((1, 2), (3, 5), -1)):
+        run.add("class-cat-unequal-leading", mkop("cat", axis=axis), [dom_of("real", a), dom_of("real", b)],
+                finitary=True, term=[((), ()), ((("i", 2),), (("i", 2),))])
+    for sh in ((3,), (3, 4), (2, 3)):
+        for off in range(len(sh)):
+            op = mkop("getitem", offset=off)
+            for rhs in (dom_of(sh[off], (2,)), dom_of(sh[off], (2, 2)), dom_of("real", ()), dom_of("real", (2,))):
+                run.add("class-getitem-rhs-not-scalar-bint", op, [dom_of("real", sh), rhs], variants=(),
+                        term=BINARY_BATCHES[:3])
+            # a scalar Bint of ANOTHER size is accepted and gives the declared shape
+            run.add("class-getitem-rhs-other-size", op, [dom_of("real", sh), dom_of(sh[off] + 2, ())],
+                    variants=(("rand", "zero"),), term=BINARY_BATCHES[:3])
+    run.flush()
+
     # ---- dedicated stream: shape-changing unary ops without a rule (KF-generic-unary-shape) ------------
     for sh in [s for s in shapes if len(s) == 2][:9]:
         d = dom_of("real", sh)
@@ -1045,10 +1096,15 @@ def streams(run, tier, full_box=False):
 
 
 def report_known(ctx, run):
-    for fid in (KF_INT, KF_FLOORDIV, KF_BITWISE, KF_SHAPE):
+    for fid in (KF_INT, KF_FLOORDIV, KF_BITWISE, KF_SHAPE, KF_ASTYPE, KF_MOD_UNIT):
         hit = run.known_hits.get(fid) or run.known_hits.get(fid + "/term")
-        ctx.extra.setdefault("known_regions", {})[fid] = dict(cases=run.known_seen.get(fid, 0), witness=hit)
+        ctx.extra.setdefault("known_regions", {})[fid] = dict(cases=run.known_seen.get(fid, 0), witness=hit,
+                                                             listed=ctx.is_open(fid))
         if not run.known_seen.get(fid):
+            continue
+        if fid in PENDING and not ctx.is_open(fid):
+            # reported to the integrator, not (yet) listed: recorded in the evidence, not gated
+            ctx.extra.setdefault("unlisted_findings", {})[fid] = dict(what=KF_WHAT[fid], witness=hit)
             continue
         ok = ctx.known(fid, reproduced=hit is not None,
                        what=f"{KF_WHAT[fid]}; e.g. {hit}" if hit else KF_WHAT[fid])
@@ -1103,6 +1159,32 @@ def correspond(ctx):
     c06_terms.run_constructors(ctx, ctx.tier)
     bad = table_checks(ctx)
     ctx.extra["table_counter_entries"] = bad[:10]
+    obs = {k: v for k, v in ctx.distribution.items() if k.startswith("class:")}
+    ctx.extra["classification"] = {
+        "stack/cat: find_domain broadcasts part shapes, numpy requires equal shapes": dict(
+            verdict="decline", why="np.stack / np.concatenate raise ValueError for unequal parts (arrays, Tensors with or "
+            "without batch inputs, Number parts); no value is ever returned against the declared shape",
+            observed={k: v for k, v in obs.items() if "stack" in k or "cat" in k}),
+        "_find_domain_getitem ignores the rhs domain": dict(
+            verdict="decline", why="eager rules assert rhs.output == Bint[size] (AssertionError), x[idx] raises ValueError "
+            "'Output mismatch', a real index raises IndexError; a scalar Bint of another size indexes fine and yields the "
+            "declared shape.  (Only the raw array op with an index ARRAY returns a differently shaped result; that is not a "
+            "typed funsor call.)", observed={k: v for k, v in obs.items() if "getitem" in k}),
+        "one-operand associative clause keeps Bint[n]": dict(
+            verdict="covered by KF-reduce-int-range", why="Unary(AssociativeOp, Tensor) raises AssertionError, .sum() on Bint "
+            "raises NotImplementedError; the clause is only reached through Tensor.eager_reduce (named Reduce), which is the "
+            "dedicated stream reduce-bint-addmul"),
+        "Bint[n] % Bint[1] declares Bint[0]": dict(
+            verdict="finding " + KF_MOD_UNIT, why="Tensor % Tensor returns 0 (numpy RuntimeWarning, no exception) in an empty "
+            "type; Number % Number raises ZeroDivisionError", listed=ctx.is_open(KF_MOD_UNIT)),
+        "astype: `dtype in (\"bool\")` substring test": dict(
+            verdict="finding " + KF_ASTYPE, why="'b' and 'l' are valid numpy dtype codes (int8/int64) typed Bint[2]; the other "
+            "substrings ('', 'o', 'bo', …) raise TypeError in numpy (declines)", listed=ctx.is_open(KF_ASTYPE)),
+        "KF-reduce-andor-logical-on-ints": dict(
+            verdict="not a C06 violation", why="Reduce(and_/or_) over Bint[n] data returns bool data (np.all/np.any): values "
+            "0/1 lie inside [0,n) and the shape is the declared one — a wrong VALUE (C01), the declaration is honoured; "
+            "enumerated in the clean constructor stream (reduce-andor-bint)"),
+    }
     ctx.exhaustive = False
     ctx.assumptions.append("numpy's result shapes are taken as the ground truth of the array ops (np-spec in Lean is "
                            "compared against numpy on every enumerated shape/parameter)")
